@@ -141,3 +141,6 @@ def run(ctx):
         for i, s in enumerate(stores):
             lib.must_pass(ctx, '5c header-marked-dirty %s #%d' % (fn, i), b, dh, 'after filled / last_removed changed every success path marks the header dirty (complete_plan then logs it)', sources=[s])
     C02.replay_before_service(ctx, '6')
+    # 7. no walk over a stored tree recurses on the worker's stack
+    shared.recursion_audit(ctx, '7', ['db::IndexedChangeSet', 'column::HashColumn::prepare', 'column::HashColumn::claim', 'multitree::'])
+    shared.no_fixed_slice_of_client_key(ctx, '7', ['db::IndexedChangeSet', 'db::DbInner', 'column::HashColumn'])
